@@ -13,7 +13,7 @@ use crate::engine::{hash_f64s, part, Ctx, PartDef, Rec};
 use crate::geom::{Lattice, P};
 
 pub const TITLE: &str = "One lattice: Cartesian map, periodic images and cell area agree";
-pub const RULE: &str = "cases = (cell length log-uniform in [1e-3,1e3], ratio in [0.05,2], angle in (0,pi) or a special value, any of the four families; a placement with arbitrary linear part and fractional position in [-3,3]^2; shell count 0..6; zero flag), cells built by deserialising JSON. Oracle: M=[A B] with A=(a,0), B=(b cos t, b sin t) from the harness's own lattice; to_cartesian/_point/_isometry = M f (rel 1e-12) and additive/homogeneous; periodic_images as a multiset = {T+nA+mB : |n|,|m|<=k} minus the central one iff zero=false, each exactly once, linear part bit-identical; area = |A x B| from the harness lattice and from the code's own images of (1,0),(0,1); corners = M(+-1/2,+-1/2) as a set. Non-trivial = angle != pi/2 and shells >= 2; distinct by the hash of all case numbers.";
+pub const RULE: &str = "cases = (cell length log-uniform in [1e-3,1e3] (a quarter in 1e-12..1e-3 or 1e3..1e9), ratio in [0.05,2], angle in (0,pi) or a special value, any of the four families; a placement with arbitrary linear part and fractional position in [-3,3]^2 (a third of the coordinates of magnitude 1e-16..1 or exactly 0); shell count 0..6; zero flag), cells built by deserialising JSON. Oracle: M=[A B] with A=(a,0), B=(b cos t, b sin t) from the harness's own lattice; to_cartesian/_point/_isometry = M f (rel 1e-12) and additive/homogeneous; periodic_images as a multiset = {T+nA+mB : |n|,|m|<=k} minus the central one iff zero=false, each exactly once, linear part bit-identical; area = |A x B| from the harness lattice and from the code's own images of (1,0),(0,1); corners = M(+-1/2,+-1/2) as a set. Non-trivial = angle != pi/2 and shells >= 2; distinct by the hash of all case numbers.";
 
 pub fn assumptions() -> Vec<&'static str> {
     vec!["Cell2 is observed only through its public methods on cells obtained by serde deserialisation", "tolerance 1e-12 relative to |a f_x| + |b f_y| (a few ulps of the products involved)"]
@@ -50,13 +50,13 @@ fn strat(_: &Ctx) -> BoxedStrategy<CellCase> {
         }),
     ];
     (
-        (-3.0..3.0f64).prop_map(|e| 10f64.powf(e)),
+        prop_oneof![4 => (-3.0..3.0f64).prop_map(|e| 10f64.powf(e)), 1 => (-12.0..-3.0f64).prop_map(|e| 10f64.powf(e)), 1 => (3.0..9.0f64).prop_map(|e| 10f64.powf(e))],
         0.05..2.0f64,
         angle,
         0usize..4,
         lin,
-        proptest::array::uniform2(-3.0..3.0f64),
-        proptest::array::uniform2(-3.0..3.0f64),
+        proptest::array::uniform2(prop_oneof![4 => -3.0..3.0f64, 1 => ((-16.0..0.0f64), any::<bool>()).prop_map(|(e, neg)| if neg { -(10f64.powf(e)) } else { 10f64.powf(e) }), 1 => Just(0.)]),
+        proptest::array::uniform2(prop_oneof![4 => -3.0..3.0f64, 1 => ((-16.0..0.0f64), any::<bool>()).prop_map(|(e, neg)| if neg { -(10f64.powf(e)) } else { 10f64.powf(e) })]),
         -4.0..4.0f64,
         0i64..=6,
         any::<bool>(),
